@@ -7,4 +7,6 @@ let machines : (string * Base.machine) list = [
   "oneshot", OneshotSpec.machine;
   "state", StateBcastSpec.machine;
   "timer", TimerSpec.machine;
+  "ringbuf", RingBuf.machine;
+  "dlist", DList.machine;
 ]
